@@ -379,7 +379,8 @@ def check_case(case, res: Result):
                                "true_since_arm": False, "arm_tick": None, "gen": 0, "epoch": 0, "stale": False,
                                "cancel_tick": None, "force_tick": None, "cause": False, "stale_live": False,
                                "in_reset": False, "epoch_children": set(), "bodies_in_gen": 0, "bodies_total": 0,
-                               "body_tick": None}
+                               "body_tick": None, "force_avail": False, "force_used_tick": None, "forces": [],
+                               "forced_acts": []}
             return s
 
         # macro concurrency (mechanism 3 of C02)
@@ -479,16 +480,35 @@ def check_case(case, res: Result):
                 res.count("cancel_accepted")
                 s["cancel_tick"] = tick
                 nontrivial = True
-            elif field == "_forced" and new is True and isinstance(n, p.NodeWithCondition):
-                res.count("force_accepted")
-                s["force_tick"] = tick
+            elif field == "_forced" and isinstance(n, p.NodeWithCondition):
+                # an accepted force (flag goes True) accounts for ONE activation: it is available until the next
+                # activation of the node uses it up, or until the flag is cleared again (reset of the node)
+                if new is True:
+                    res.count("force_accepted")
+                    s["force_tick"] = tick
+                    s["force_avail"] = True
+                    s["forces"].append(tick)
+                else:
+                    s["force_avail"] = False
             elif field == "activated" and new is True:
                 res.count("activations")
                 act_events.setdefault(pid, []).append(tick)
-                if s["_forced"] and not s["true_since_arm"]:
+                if s["force_avail"] and not s["true_since_arm"]:
                     res.count("forced_activations")
-                if s["true_since_arm"] or s["_forced"]:
+                    s["forced_acts"].append(tick)
+                if s["true_since_arm"] or s["force_avail"]:
                     s["cause"] = True
+                    if s["force_avail"]:
+                        s["force_avail"] = False
+                        s["force_used_tick"] = tick
+                elif s["_forced"] and s["force_used_tick"] is not None:
+                    # the force flag is still set although the force it stands for was used up by an earlier
+                    # activation and the node has been re-armed / reset since (no new accepted force, no True result)
+                    res.count("activations_by_used_up_force")
+                    V("C04.force_reused_after_rearm", f"{nid} {cls} activated in tick {tick} by the force accepted in "
+                      f"tick {s['force_tick']}, which was already used up by the activation in tick "
+                      f"{s['force_used_tick']}; no True evaluation since its registration in tick {s['arm_tick']} and "
+                      f"no new accepted force", n)
                 else:
                     V("C04.activated_without_true_condition", f"{nid} {cls} activated in tick {tick} without a True "
                       f"evaluation since its registration in tick {s['arm_tick']} and without force", n)
